@@ -279,6 +279,14 @@ class ReaderModel:
                 k = self.repo.resolve_name(self.f.module, ast.unparse(n.func.value)) if isinstance(n.func.value, (ast.Name, ast.Attribute)) else None
                 if isinstance(k, ClassInfo):
                     return n, k
+        # another static factory of the class (`Fraction.build(...)`) used in place of ed(): followed like ed()
+        for n in walk_local_stmt(self.f.node):
+            if isinstance(n, ast.Call) and isinstance(n.func, ast.Attribute) and isinstance(n.func.value, (ast.Name, ast.Attribute)):
+                k = self.repo.resolve_name(self.f.module, ast.unparse(n.func.value))
+                if isinstance(k, ClassInfo) and n.func.attr in k.methods and k.methods[n.func.attr].is_static and n.func.attr != "fromJsonFragment" \
+                        and k.name == self.c.name:
+                    self.factory_name = n.func.attr
+                    return n, k
         return None, None
 
     def field_keys(self, model):
@@ -286,7 +294,7 @@ class ReaderModel:
         call, k = self.ed_call()
         if call is None:
             raise AnalysisError(f"{self.f.construct}: no call to <Class>.ed(...)")
-        ed = self.repo.method(k, "ed")
+        ed = self.repo.method(k, getattr(self, "factory_name", "ed"))
         env, exprs = bind_call_args(ed, call, lambda x: frozenset(("JSON", kp, "full", False) for kp in self.K(x, self.env)))
         dict_fields = [s for s, kk in model.slot_kind.items() if kk == "dict"]
         rf = ResultFields2(self.repo, k, ed, env, dict_fields)
